@@ -518,6 +518,122 @@ theorem sampler_filter_fails_on_old_code :
   revert this
   decide
 
+/-! ## accounting by state, seeding, memoisation (history-independence)
+
+`tally_counts`: whatever the order the two tests are made in the code, the three counters that feed the
+performances are: states below the effective filter / above it and rejected by heralds or post-selection / above it
+and selected -- a state failing BOTH is a physical rejection, as in strong simulation. -/
+
+open PM.SM in
+theorem tally_counts (filter : Nat) (heralds : List (Nat × Nat)) (psf : List Nat → Bool)
+    (sts : List (List Nat)) (s : St) :
+    let few := fun st : List Nat => decide (st.sum < filter + heraldPhotons heralds)
+    let ok := fun st : List Nat => heraldsOk heralds st && psf st
+    (tally true filter heralds psf s sts).notSelPhys = s.notSelPhys + sts.countP few ∧
+    (tally true filter heralds psf s sts).notSel = s.notSel + sts.countP (fun st => !few st && !ok st) ∧
+    (tally true filter heralds psf s sts).out = s.out + sts.countP (fun st => !few st && ok st) := by
+  intro few ok
+  induction sts generalizing s with
+  | nil => simp [tally]
+  | cons st rest ih =>
+    have h := ih (classify s (shotOutcome true filter heralds (psf st) st))
+    simp only [tally, List.foldl_cons] at h ⊢
+    obtain ⟨h1, h2, h3⟩ := h
+    rw [h1, h2, h3]
+    simp only [List.countP_cons]
+    by_cases hf : st.sum < filter + heraldPhotons heralds
+    · have : few st = true := by simp [few, hf]
+      simp [shotOutcome, effFilter, hf, classify, this]; omega
+    · have hfew : few st = false := by simp [few, hf]
+      by_cases hk : (heraldsOk heralds st && psf st) = true
+      · have : ok st = true := hk
+        simp [shotOutcome, effFilter, hf, hk, classify, hfew, this]; omega
+      · have : ok st = false := by simpa [ok] using hk
+        simp [shotOutcome, effFilter, hf, hk, classify, hfew, this]; omega
+
+theorem physical_rejection_ignores_selection (filter : Nat) (heralds : List (Nat × Nat)) (ps ps' : Bool)
+    (st : List Nat) :
+    (shotOutcome true filter heralds ps st = .phys ↔ st.sum < filter + heraldPhotons heralds) ∧
+    (shotOutcome true filter heralds ps st = .phys ↔ shotOutcome true filter heralds ps' st = .phys) := by
+  constructor
+  · unfold shotOutcome effFilter
+    by_cases hf : st.sum < filter + heraldPhotons heralds
+    · simp [hf]
+    · simp only [↓reduceIte, hf]
+      split <;> simp
+  · unfold shotOutcome effFilter
+    by_cases hf : st.sum < filter + heraldPhotons heralds
+    · simp [hf]
+    · simp only [↓reduceIte, hf]
+      constructor <;> (intro h; split at h <;> simp at h)
+
+/-- after `random_seed(s)` everything drawn is a function of `s` and of the draws asked for, whatever happened
+before (any earlier seeding, any earlier draws) -/
+open PM.SM in
+theorem reseed_repeats_exactly (R : RngSpec) (w w' : Gens) (s : Nat) (ops : List ROp) :
+    (run (rstep R) w (.seed s :: ops)).2 = (run (rstep R) w' (.seed s :: ops)).2 := by
+  simp [run, rstep]
+
+open PM.SM in
+theorem reseed_repeats_after_any_history (R : RngSpec) (w : Gens) (h₁ h₂ : List ROp) (s : Nat) (ops : List ROp) :
+    (run (rstep R) (exec (rstep R) w h₁) (.seed s :: ops)).2 =
+    (run (rstep R) (exec (rstep R) w h₂) (.seed s :: ops)).2 :=
+  reseed_repeats_exactly R _ _ s ops
+
+open PM.SM in
+/-- a private generator that `random_seed` does not reach breaks it: second use of the same object -/
+theorem private_generator_does_not_repeat :
+    ∃ (R : RngSpec) (w : Gens) (s : Nat),
+      (run (rstepPrivate R) (exec (rstepPrivate R) (w, none) [.seed s, .draw .np]) [.seed s, .draw .np]).2 ≠
+      (run (rstepPrivate R) (w, none) [.seed s, .draw .np]).2 := by
+  refine ⟨⟨fun _ s => s, fun _ n => n + 1, fun _ n => n⟩, ⟨0, 0, 0⟩, 0, ?_⟩
+  decide
+
+open PM.SM in
+example : (run (rstep ⟨fun _ s => s, fun _ n => n + 1, fun _ n => n⟩) ⟨7, 8, 9⟩
+    [.draw .py, .seed 3, .draw .py, .draw .np, .draw .py]).2 = [some 7, none, some 3, some 3, some 4] := by
+  decide
+
+
+/-- `memo_transparent`: when the key identifies the answer (`key q = key q' → f q = f q'`), a memoised function
+answers every question of every history exactly as the function itself: what was asked before does not matter. -/
+open PM.SM in
+theorem memo_transparent {Q K V : Type} [DecidableEq K] (key : Q → K) (f : Q → V)
+    (hkey : ∀ q q', key q = key q' → f q = f q') (tbl : List (K × V))
+    (htbl : ∀ k v, (k, v) ∈ tbl → ∀ q, key q = k → f q = v) (qs : List Q) :
+    (run (memoStep key f) tbl qs).2 = qs.map f := by
+  induction qs generalizing tbl with
+  | nil => simp [run]
+  | cons q qs ih =>
+    simp only [run, List.map_cons]
+    cases hf : findKey (key q) tbl with
+    | some v =>
+      have hv : f q = v := htbl _ _ (findKey_mem _ _ _ hf) q rfl
+      simp only [memoStep, hf]
+      rw [ih tbl htbl, hv]
+    | none =>
+      simp only [memoStep, hf]
+      rw [ih]
+      intro k v hm q' hq'
+      simp only [List.mem_cons, Prod.mk.injEq] at hm
+      rcases hm with ⟨rfl, rfl⟩ | hm
+      · exact hkey q' q hq'
+      · exact htbl k v hm q' hq'
+
+open PM.SM in
+/-- a key that does not identify the question (two detectors sharing a NAME, different wires) serves a stale
+answer: the second question gets the first one's distribution -/
+theorem memo_by_name_is_stale :
+    ∃ (key : String × Nat → String) (f : String × Nat → Nat) (qs : List (String × Nat)),
+      (run (memoStep key f) [] qs).2 ≠ qs.map f := by
+  refine ⟨fun q => q.1, fun q => q.2, [("PPNR", 2), ("PPNR", 8)], ?_⟩
+  decide
+
+open PM.SM in
+example : (run (memoStep (fun q : Nat × Nat => q) (fun q => q.1 * q.2) ) [] [(2, 3), (4, 5), (2, 3)]).2 = [6, 20, 6] := by
+  decide
+
+
 /-! ## non-vacuity: the hypotheses of the theorems above are satisfiable and the conclusions are
 about runs that really happen (closed terms evaluated by the kernel) -/
 
